@@ -11,7 +11,8 @@ THEOREMS = ['keyLt_strictTotal', 'C03_places_from_keys', 'C03_equal_keys_share',
             'C03_sortRanked_is_key_sort', 'C03_best_never_decreases', 'C03_best_is_a_cleared_height',
             'C03_unplaced_iff_no_clearance', 'placesInv_reachable', 'C03_ranked_is_permutation',
             'C03_places_every_decided_state', 'C03', 'C03_ties_and_order', 'allBest_reachable',
-            'C03_best_is_greatest_cleared', 'C03_best_column_unique', 'C03_card_within_heights']
+            'C03_best_is_greatest_cleared', 'C03_best_column_unique', 'C03_card_within_heights', 'decided_reachable',
+            'C03_one_winner', 'C03_winner_still_in', 'C03_draw_is_a_tie']
 
 def judge_final(ctx, athlib, ops, c, r, stats):
     """at a terminal state compare state, places and bests with the referee"""
